@@ -30,8 +30,9 @@ SYS_PROPS = ['C01', 'C02', 'C03', 'C06', 'C08', 'C10', 'C12', 'C15', 'C19', 'C20
 
 # exhaustive configurations of S: (cfg file, properties whose design-level statement it checks)
 MC_CFGS = {
-    'quick': ['BertE.q.cfg', 'BertE.nq.cfg', 'BertE.sk.cfg', 'BertE.qs.cfg'],
-    'thorough': ['BertE.q.t.cfg', 'BertE.nq.t.cfg', 'BertE.sk.t.cfg', 'BertE.qs.t.cfg', 'BertE.q3.t.cfg'],
+    'quick': ['BertE.q.cfg', 'BertE.nq.cfg', 'BertE.sk.cfg', 'BertE.qs.cfg', 'BertE.fq.cfg'],
+    'thorough': ['BertE.q.t.cfg', 'BertE.nq.t.cfg', 'BertE.sk.t.cfg', 'BertE.qs.t.cfg', 'BertE.q3.t.cfg',
+                 'BertE.f.cfg', 'BertE.fp.cfg'],
 }
 SIM_CFGS = {
     'quick': [('BertE.sim.cfg', 16, 30), ('BertE.simsk.cfg', 12, 30), ('BertE.simnq.cfg', 8, 24),
@@ -301,6 +302,9 @@ def _sig(clause, o, rec):
     return sig
 
 
+# design-level counterexamples that are known findings (deviation switch on = the code's behaviour)
+EXPECTED_LEADS = {'BertE.fp.cfg': 'C08_Foreign'}
+
 # ----------------------------------------------------------------------------- per property
 CLAUSES = {p: p + '.' for p in SYS_PROPS}
 MC_PROPS = {   # design-level statements checked on S (names in BertE.tla)
@@ -318,7 +322,10 @@ def check(prop, tier, seed):
         return 2
     mine = [v for v in res['violations'] if v['clause'].startswith(prop + '.')]
     for m in res['mc']:
-        if not m['ok']:
+        if not m['ok'] and EXPECTED_LEADS.get(m['cfg']) == m['violated']:
+            print('MODEL-LEAD (expected): %s violates %s - the modelled code behaviour behind a known finding; the same '
+                  'configuration with the deviation switched off satisfies it' % (m['cfg'], m['violated']))
+        elif not m['ok']:
             # a counterexample in the design model is a lead, not a verdict (DESIGN.md section 5)
             print('MODEL-LEAD: TLC reports %s on %s (design level; verdicts come from real executions)'
                   % (m['violated'] or 'an error', m['cfg']))
